@@ -85,6 +85,7 @@ func Begin(ncpu int, ent io.Reader) {
 	anon = 0
 	atomic.AddInt64(&gen, 1)
 	atomic.StoreInt64(&quantum, 0)
+	atomic.StoreInt32(&poolMode, 0)
 	atomic.StoreInt32(&on, 1)
 }
 
@@ -547,6 +548,81 @@ func (o *Once) Do(f func()) {
 		defer atomic.StoreUint32(&o.done, 1)
 		f()
 	}
+}
+
+// Pool replaces sync.Pool. sync.Pool's reuse is decided by the runtime (per-P
+// caches, GC) and cannot be replayed; inside a simulated run this one is a
+// last-in first-out free list that starts empty in every run, with a per-run
+// mode set by the controller: 0 always reuses (the most adversarial for stale
+// contents and for an object put back while still in use), 1 never reuses,
+// 2 reuses every other time.
+type Pool struct {
+	New func() interface{}
+
+	raw   sync.Pool
+	o     sync.Mutex
+	g     int64
+	items []interface{}
+	n     int
+}
+
+var poolMode int32
+
+// SetPoolMode selects how Pool behaves during the current run.
+func SetPoolMode(m int) { atomic.StoreInt32(&poolMode, int32(m)) }
+
+// Get returns an object from the pool.
+func (p *Pool) Get() interface{} {
+	if atomic.LoadInt32(&on) == 0 || current() == nil {
+		if v := p.raw.Get(); v != nil {
+			return v
+		}
+		if p.New != nil {
+			return p.New()
+		}
+		return nil
+	}
+	Yield("pool.get")
+	p.o.Lock()
+	if g := atomic.LoadInt64(&gen); p.g != g {
+		p.g, p.items, p.n = g, nil, 0
+	}
+	p.n++
+	var v interface{}
+	reuse := true
+	switch atomic.LoadInt32(&poolMode) {
+	case 1:
+		reuse = false
+	case 2:
+		reuse = p.n%2 == 0
+	}
+	if reuse && len(p.items) > 0 {
+		v = p.items[len(p.items)-1]
+		p.items = p.items[:len(p.items)-1]
+	}
+	p.o.Unlock()
+	if v == nil && p.New != nil {
+		v = p.New()
+	}
+	return v
+}
+
+// Put hands an object back.
+func (p *Pool) Put(x interface{}) {
+	if x == nil {
+		return
+	}
+	if atomic.LoadInt32(&on) == 0 || current() == nil {
+		p.raw.Put(x)
+		return
+	}
+	Yield("pool.put")
+	p.o.Lock()
+	if g := atomic.LoadInt64(&gen); p.g != g {
+		p.g, p.items, p.n = g, nil, 0
+	}
+	p.items = append(p.items, x)
+	p.o.Unlock()
 }
 
 // Describe renders a task list for diagnostics.
